@@ -45,6 +45,7 @@ type lifeParams struct {
 	SW     bool // wrapped writer implements io.StringWriter
 	Early  bool // barrier released before the last write instead of after it
 	Lazy   bool // consumer calls Status() only after the barrier
+	Closer int  // wrapped writer has a Close method: 0 no, 1 succeeding, 2 failing
 	CRel   bool // the consumer releases the barrier (the writer sees it one cache transfer later) instead of the writer
 	MaxLag int
 	WLag   int // writer: spin iterations between barrier and its next call
@@ -52,8 +53,8 @@ type lifeParams struct {
 }
 
 func (p lifeParams) String() string {
-	return fmt.Sprintf("writes=%d sizes=%d,%d lastIsWriteString=%v sw=%v barrierBeforeLastWrite=%v barrierReleasedByConsumer=%v lazyStatus=%v writerLag=%d consumerLag=%d (of %d)",
-		p.Writes, p.S1, p.S2, p.Str, p.SW, p.Early, p.CRel, p.Lazy, p.WLag, p.CLag, p.MaxLag)
+	return fmt.Sprintf("writes=%d sizes=%d,%d lastIsWriteString=%v sw=%v barrierBeforeLastWrite=%v barrierReleasedByConsumer=%v wrappedCloser=%d lazyStatus=%v writerLag=%d consumerLag=%d (of %d)",
+		p.Writes, p.S1, p.S2, p.Str, p.SW, p.Early, p.CRel, p.Closer, p.Lazy, p.WLag, p.CLag, p.MaxLag)
 }
 
 var lifeLags = []int{32, 128, 600, 2000, 6000}
@@ -69,7 +70,7 @@ func splitmix(x *uint64) uint64 {
 func nextLife(x *uint64) lifeParams {
 	a, b := splitmix(x), splitmix(x)
 	p := lifeParams{Writes: 1 + int(a&1), S1: 1 + int(a>>1&15), S2: 1 + int(a>>5&15), Str: a>>9&1 == 1, SW: a>>10&1 == 1,
-		Early: a>>11&3 == 0, Lazy: a>>13&7 == 0, CRel: a>>24&1 == 1, MaxLag: lifeLags[int(a>>16%uint64(len(lifeLags)))]}
+		Early: a>>11&3 == 0, Lazy: a>>13&7 == 0, CRel: a>>24&1 == 1, Closer: []int{0, 0, 1, 2}[a>>25&3], MaxLag: lifeLags[int(a>>16%uint64(len(lifeLags)))]}
 	p.WLag = int(b % uint64(p.MaxLag+1))
 	p.CLag = int((b >> 32) % uint64(p.MaxLag+1))
 	if p.Writes == 1 {
@@ -105,6 +106,29 @@ type countSW struct{ countW }
 
 func (w *countSW) WriteString(s string) (int, error) { return w.add(len(s), true) }
 
+// the lifetime wrapped writers with a Close method (fail: it returns an error)
+type lifeCloser struct {
+	fail  bool
+	calls int
+}
+
+func (c *lifeCloser) Close() error {
+	c.calls++
+	if c.fail {
+		return errClose
+	}
+	return nil
+}
+
+type countWC struct {
+	*countW
+	*lifeCloser
+}
+type countSWC struct {
+	*countSW
+	*lifeCloser
+}
+
 type lifeRound struct {
 	p       lifeParams
 	pw      *ioutil.ProgressWriter
@@ -127,7 +151,7 @@ type lifeCounters struct {
 	lifetimes, values, oneValue, twoValues, threePlus atomic.Int64
 	recvBeforeClose, recvAfterClose                   atomic.Int64
 	early, lazy, strSW, sizeChecks                    atomic.Int64
-	afterClose                                        atomic.Int64
+	afterClose, closers, libClose                     atomic.Int64
 }
 
 type lifePair struct {
@@ -187,13 +211,15 @@ func (p *lifePair) writer() {
 		}
 	}()
 	x := p.seed
-	var sizeChecks, early, lazy, strSW int64
+	var sizeChecks, early, lazy, strSW, closers, libClose int64
 	flush := func() {
 		p.cnt.sizeChecks.Add(sizeChecks)
 		p.cnt.early.Add(early)
 		p.cnt.lazy.Add(lazy)
 		p.cnt.strSW.Add(strSW)
-		sizeChecks, early, lazy, strSW = 0, 0, 0, 0
+		p.cnt.closers.Add(closers)
+		p.cnt.libClose.Add(libClose)
+		sizeChecks, early, lazy, strSW, closers, libClose = 0, 0, 0, 0, 0, 0
 	}
 	defer flush()
 	for i := 0; i < p.n && !p.stop.Load(); i++ {
@@ -206,6 +232,16 @@ func (p *lifePair) writer() {
 		} else {
 			r.w = &countW{}
 			w = r.w
+		}
+		var lc *lifeCloser
+		if prm.Closer != 0 {
+			lc = &lifeCloser{fail: prm.Closer == 2}
+			if sw, ok := w.(*countSW); ok {
+				w = countSWC{sw, lc}
+			} else {
+				w = countWC{r.w, lc}
+			}
+			closers++
 		}
 		where = "NewProgressWriter"
 		r.pw = ioutil.NewProgressWriter(w)
@@ -270,8 +306,11 @@ func (p *lifePair) writer() {
 		}
 		r.closing.Store(true)
 		where = "Close"
-		pw.Close()
+		closePW(pw)
 		r.closed.Store(true)
+		if lc != nil {
+			libClose += int64(lc.calls)
+		}
 		where = "Size"
 		sizeChecks++
 		if got := pw.Size(); got != r.w.total {
